@@ -248,6 +248,43 @@ fn main() {
             println!("runs={} events={}", out.run, out.events);
             out.finish();
         }
+        // every op sequence of length n over ONE peer x 2 addresses (13 letters): deeper than `exhaustive`
+        "exhaustive1" => {
+            let n = a.num(0) as usize;
+            let mut out = Out::create(a.get(1));
+            let mut al: Vec<Value> = vec![];
+            for x in 0..2 {
+                al.push(json!({"op": "add", "p": 0, "a": x}));
+                al.push(json!({"op": "remove", "p": 0, "a": x}));
+                al.push(json!({"op": "ext", "p": 0, "a": x}));
+                al.push(json!({"op": "conn", "p": 0, "a": x, "f": [1 - x]}));
+                al.push(json!({"op": "dft", "p": 0, "f": [x]}));
+                al.push(json!({"op": "dfw", "p": 0, "q": 2, "a": x}));
+            }
+            al.push(json!({"op": "dft", "p": 0, "f": [0, 1]}));
+            let k = al.len();
+            for (pc, rc, rm) in [(2, 2, true), (1, 1, true)] {
+                let mut idx = vec![0usize; n];
+                loop {
+                    let ops: Vec<Value> = idx.iter().map(|&i| al[i].clone()).collect();
+                    run(&mut out, &json!({"pc": pc, "rc": rc, "rm": rm, "ops": ops}), &w);
+                    let mut j = 0;
+                    while j < n {
+                        idx[j] += 1;
+                        if idx[j] < k {
+                            break;
+                        }
+                        idx[j] = 0;
+                        j += 1;
+                    }
+                    if j == n {
+                        break;
+                    }
+                }
+            }
+            println!("runs={} events={}", out.run, out.events);
+            out.finish();
+        }
         "random" => {
             let seed = a.num(0);
             let runs = a.num(1);
